@@ -227,7 +227,7 @@ def run(ctx):
             wf = [i for i, (k, _) in enumerate(pool) if k == "wfn"]
             hams = [i for i, (k, _) in enumerate(pool) if k == "ham"] + opham * 3
             i, j, hm = rng.choice(wf), rng.choice(wf), rng.choice(hams)
-            kind = rng.choice(["apply", "evolve", "expect", "rdm", "add", "sub", "cirq", "build", "iht", "copy-mutate",
+            kind = rng.choice(["apply", "evolve", "chebyshev", "chebyshev-short", "expect", "rdm", "add", "sub", "cirq", "build", "iht", "copy-mutate",
                                "empty-copy", "antisymm", "inplace-scale", "inplace-axpy", "inplace-evolve", "flip-path",
                                "replay", "replay", "vdot"])
             before = [snap(o) for o in pool]
@@ -241,6 +241,14 @@ def run(ctx):
                         thunk = (lambda a=pool[i][1], b=pool[hm][1]: a.apply_generated_unitary(0.01, "taylor", b, accuracy=1e-10))
                     else:
                         thunk = (lambda a=pool[i][1], b=pool[hm][1]: a.time_evolve(0.1, b))
+                elif kind in ("chebyshev", "chebyshev-short"):
+                    # the Chebyshev propagator (a rarely used keyword route); with a short expansion it ends in the
+                    # documented RuntimeError - the Hamiltonian it was given must be intact either way
+                    if pool[hm][0] != "ham":
+                        continue
+                    lim = 3 if kind == "chebyshev-short" else 60
+                    thunk = (lambda a=pool[i][1], b=pool[hm][1], n=lim: a.apply_generated_unitary(
+                        0.9, "chebyshev", b, accuracy=1e-10, expansion=n, spec_lim=[-13.0, 11.0]))
                 elif kind == "expect":
                     thunk = (lambda a=pool[i][1], b=pool[hm][1], c=pool[j][1]: a.expectationValue(b, brawfn=c))
                 elif kind == "rdm":
@@ -337,6 +345,15 @@ def run(ctx):
             except Exception as exc:
                 ctx.count(f"raised:{kind}:{type(exc).__name__}")
                 log.append({"step": step, "op": kind, "raised": type(exc).__name__})
+                # a call that fails leaves its arguments intact just the same (in-place variants excepted)
+                if target is None:
+                    after = [snap(o) for o in pool[:len(before)]]
+                    bad = [x for x in range(len(before)) if before[x] != after[x]]
+                    if bad:
+                        who = [(x, pool[x][0]) for x in bad]
+                        ctx.disagree(f"frame:{kind}:after-exception", f"step {step} ({kind}) raised {type(exc).__name__} and left objects "
+                                     f"{who} changed", {"history": log, "norb": norb, "changed": who})
+                        break
                 continue
             log.append({"step": step, "op": kind, "i": i, "j": j, "ham": hm})
             after = [snap(o) for o in pool[:len(before)]]
